@@ -196,6 +196,12 @@ class Comp(T):
     __slots__ = ("elt", "var", "iter", "conds", "kind")
 
     def __init__(self, elt, var, iter_, conds=(), kind="list"):
+        if isinstance(iter_, Range) and iter_.step == ONE and iter_.lo != ZERO and isinstance(var, Sym):
+            # counted from zero: [f(v) for v in range(lo, hi)] is [f(v + lo) for v in range(hi - lo)]
+            shift = {var.key: add(var, iter_.lo)}
+            elt = substitute(elt, shift)
+            conds = [substitute(c, shift) for c in conds]
+            iter_ = Range(ZERO, add(iter_.hi, neg(iter_.lo)))
         self.elt, self.var, self.iter, self.conds, self.kind = elt, var, iter_, tuple(conds), kind
         c = (" if " + " and ".join(x.key for x in self.conds)) if self.conds else ""
         self._setkey(f"{kind}[{elt.key} for {var.key} in {iter_.key}{c}]")
@@ -824,11 +830,28 @@ class RankEnv:
 _DEFAULT_RANKS = RankEnv()
 
 
+def canon_idx(idx) -> Tuple[T, ...]:
+    """One spelling for a subscript tuple: `a[(r, c)]` is `a[r, c]`, and `a[t[0], t[1]]` with t unpacked into exactly these
+    components is `a[t]` (the reference spells the scatter `square[table] = vector`)."""
+    idx = tuple(idx)
+    if len(idx) == 1 and isinstance(idx[0], Tup) and len(idx[0].elems) >= 1:
+        idx = tuple(idx[0].elems)
+    while len(idx) >= 2 and isinstance(idx[-1], Slc) and idx[-1].lo is None and idx[-1].hi is None and idx[-1].step is None:
+        idx = idx[:-1]                    # a[i, :] is a[i]: trailing full slices select everything that is left
+    if len(idx) >= 2 and all(isinstance(i, Idx) and len(i.idx) == 1 and isinstance(i.idx[0], Poly) for i in idx):
+        b0 = idx[0].base
+        if all(i.base == b0 for i in idx) and [i.idx[0].const_value() for i in idx] == list(range(len(idx))):
+            return (b0,)
+    return idx
+
+
 def index(base: T, idx: Tuple[T, ...], ranks: Optional[RankEnv] = None) -> T:
     """base[idx].  Pushes the subscript into element-wise sums when every atom's rank
     is known (NumPy broadcasting: scalars are left alone)."""
     ranks = ranks or _DEFAULT_RANKS
     base = as_term(base)
+    if not isinstance(base, (Tup, Lst, Rep, Range, Comp, Cat)):
+        idx = canon_idx(idx)              # array subscripts only: a sequence is indexed by one position
     if isinstance(base, PW):
         return PW([(g, index(v, idx, ranks)) for g, v in base.pieces])
     if isinstance(base, Rep) and isinstance(base.seq, Lst) and len(base.seq.elems) == 1 and len(idx) == 1 and not isinstance(idx[0], Slc):
